@@ -22,7 +22,7 @@ func init() {
 		Explanation: "Decided (representation discipline of the Go marshalling code, for every value): (R08.1) in the reflection call path every 32-bit result is stored zero-extended into its 64-bit stack slot and every integer kind goes through conversions of its own signedness only; " +
 			"(R08.2) no float32 value takes a float64 round trip (which quiets signalling NaNs): the Float32 arms use only math.Float32bits/Float32frombits and reflect.Value.Convert; (R08.3) the engines' call paths size parameter/result slices only from the slot counts " +
 			"(ParamNumInUint64/ResultNumInUint64, v128 = 2 slots), never from len(Params)/len(Results), and the slot counter adds 2 for v128; (R08.4) the kinds accepted by the signature parser equal the kinds handled by the parameter arm set and by the result arm set; " +
-			"(R08.5) api.Encode*/Decode* are bit-preserving: 32-bit encoders zero-extend, float coders use math.Float*bits/frombits only. (R08.9) the compiler's Go side zero-extends the 32-bit slots which generated code wrote with 4-byte stores before a host function, a listener or the caller of Call/CallWithStack sees them (genuine defect found and fixed: raw slots carried stale upper halves). NOT decided: the amd64/arm64 trampolines and entry preambles as machine code, the stack-based GoFunction forms beyond slot arithmetic.",
+			"(R08.5) api.Encode*/Decode* are bit-preserving: 32-bit encoders zero-extend, float coders use math.Float*bits/frombits only. (R08.9) the compiler's Go side zero-extends the 32-bit slots which generated code wrote with 4-byte stores before a host function, a listener or the caller of Call/CallWithStack sees them (genuine defect found and fixed: raw slots carried stale upper halves). (R08.10) after a host function returned, its results are never masked by the parameter types. NOT decided: the amd64/arm64 trampolines and entry preambles as machine code, the stack-based GoFunction forms beyond slot arithmetic.",
 		Rules: []core.Rule{
 			{ID: "R08.1", Template: "T-REPR", Text: "reflection marshalling: per reflect.Kind arm, the value stored into the []uint64 slot has the representation of its wasm type (32-bit kinds zero-extended through uint32 or an unsigned getter)", Min: 8},
 			{ID: "R08.2", Template: "T-REPR", Text: "Float32 arms never call SetFloat/Float and never convert between float32 and float64", Min: 2},
@@ -32,6 +32,7 @@ func init() {
 			{ID: "R08.6", Template: "T-WIDTH", Text: "in the backends' ABI code (entry preamble, Go-call trampolines, call-site argument/result moves) an arm labelled with a value type never emits a move narrower than that type", Min: 6},
 			{ID: "R08.7", Template: "T-OWN", Text: "every exported-function lookup yields a freshly allocated call engine (value stack and execution context are per api.Function)", Min: 2},
 			{ID: "R08.8", Template: "T-OWN", Text: "the reflection marshalling writes only the caller's stack or memory allocated in the same call", Min: 1},
+			{ID: "R08.10", Template: "T-MUSTPASS", Text: "results written by a host function are never masked by the parameter types", Min: 4},
 			{ID: "R08.9", Template: "T-MUSTPASS", Text: "the compiler's Go side zero-extends 32-bit slots before host functions, listeners and Call/CallWithStack callers see them (genuine defect found and fixed)", Min: 7},
 		},
 		Run: runC08,
@@ -42,6 +43,7 @@ func init() {
 			{Name: "uint32-result-via-int", File: "internal/wasm/gofunc.go", Old: "\t\tcase reflect.Uint32, reflect.Uint64, reflect.Uintptr:\n\t\t\tstack[i] = ret.Uint()", New: "\t\tcase reflect.Uint32:\n\t\t\tstack[i] = uint64(int32(ret.Uint()))\n\t\tcase reflect.Uint64, reflect.Uintptr:\n\t\t\tstack[i] = ret.Uint()", Rule: "R08.1", Substr: "result Uint32"},
 			{Name: "amd64-i64-stack-arg-32bit-load", File: "internal/engine/wazevo/backend/isa/amd64/abi_go_call.go", Old: "\t\t\tcase ssa.TypeI32:\n\t\t\t\tload.asMovzxRmR(extModeLQ, mem, v)\n\t\t\tcase ssa.TypeI64:\n\t\t\t\tload.asMov64MR(mem, v)\n", New: "\t\t\tcase ssa.TypeI32, ssa.TypeI64:\n\t\t\t\tload.asMovzxRmR(extModeLQ, mem, v)\n", Rule: "R08.6", Substr: "amd64"},
 			{Name: "arm64-f64-result-32bit-load", File: "internal/engine/wazevo/backend/isa/arm64/abi_go_call.go", Old: "loadIntoReg.asFpuLoad(r.Reg, mode, 64)", New: "loadIntoReg.asFpuLoad(r.Reg, mode, 32)", Rule: "R08.6", Substr: "arm64"},
+			{Name: "host-results-masked-by-param-types", File: "internal/engine/wazevo/call_engine.go", Old: "\t\t\t\tf.Call(ctx, callerModule, s)\n\t\t\t}()\n\t\t\t// Call Listener.After.\n\t\t\tlistener.After(ctx, callerModule, def, s)", New: "\t\t\t\tf.Call(ctx, callerModule, s)\n\t\t\t}()\n\t\t\t// Call Listener.After.\n\t\t\tclearUpper32Bits(s, def.ParamTypes())\n\t\t\tlistener.After(ctx, callerModule, def, s)", Rule: "R08.10", Substr: "GoModuleFunctionWithListener"},
 			{Name: "results-not-zero-extended", File: "internal/engine/wazevo/call_engine.go", Old: "\t\t\tclearUpper32Bits(paramResultStack, c.resultTypes)\n\t\t\treturn nil\n", New: "\t\t\treturn nil\n", Rule: "R08.9", Substr: "results handed back"},
 			{Name: "host-args-not-zero-extended", File: "internal/engine/wazevo/call_engine.go", Old: "\t\t\tclearUpper32Bits(s, hostFunctionParamTypes(c.execCtx.goFunctionCallCalleeModuleContextOpaque, index))\n\t\t\tfunc() {\n\t\t\t\tif snapshotEnabled {\n\t\t\t\t\tdefer snapshotRecoverFn(c)\n\t\t\t\t}\n\t\t\t\tf.Call(ctx, s)", New: "\t\t\tfunc() {\n\t\t\t\tif snapshotEnabled {\n\t\t\t\t\tdefer snapshotRecoverFn(c)\n\t\t\t\t}\n\t\t\t\tf.Call(ctx, s)", Rule: "R08.9", Substr: "ExitCodeCallGoFunction "},
 			{Name: "reflect-args-cached-on-function", File: "internal/wasm/gofunc.go", Old: "\tvar in []reflect.Value\n\tpLen := tp.NumIn()\n\tif pLen != 0 {\n\t\tin = make([]reflect.Value, pLen)\n", New: "\tin := sharedIn\n\tpLen := tp.NumIn()\n\tif pLen != 0 {\n", Rule: "R08.8", Substr: "callGoFunc", Old2: "var _ api.GoModuleFunction = (*reflectGoModuleFunction)(nil)", New2: "var _ api.GoModuleFunction = (*reflectGoModuleFunction)(nil)\n\nvar sharedIn = make([]reflect.Value, 16)"},
@@ -483,7 +485,7 @@ func runC08(c *core.Ctx) {
 	}
 
 	checkEmitterWidths(c)
-	checkSlotNormalisation(c)
+	checkSlotNormalisation(c, "R08.9", "R08.10")
 	checkFreshCallEngine(c)
 	checkMarshalScratch(c)
 
@@ -953,7 +955,7 @@ func checkMarshalScratch(c *core.Ctx) {
 
 // ---- R08.9 32-bit slots are zero-extended before Go code sees them ----
 
-func checkSlotNormalisation(c *core.Ctx) {
+func checkSlotNormalisation(c *core.Ctx, rule9, rule10 string) {
 	p, api := c.Pkg(wzv), c.Pkg("internal/engine/wazevo/wazevoapi")
 	if p == nil || api == nil {
 		return
@@ -987,7 +989,7 @@ func checkSlotNormalisation(c *core.Ctx) {
 		}
 	}
 	if sw == nil {
-		c.Undecided("R08.9", "Go-side exit loop", 0, "not found")
+		c.Undecided(rule10, "Go-side exit loop", 0, "not found")
 		return
 	}
 	// the caller's slot slice: the []uint64 parameter of the loop function
@@ -1027,7 +1029,7 @@ func checkSlotNormalisation(c *core.Ctx) {
 		label := constNameOf(info, cc.List[0])
 		if label == "ExitCodeOK" && stackParam != nil {
 			n++
-			c.Check(normalisedBefore(cc.Body, cc.End(), stackParam.Name()), "R08.9", "results handed back to the caller of Call/CallWithStack are zero-extended", cc.Pos(),
+			c.Check(rule9 == "" || normalisedBefore(cc.Body, cc.End(), stackParam.Name()), rule9x(rule9), "results handed back to the caller of Call/CallWithStack are zero-extended", cc.Pos(),
 				"the 32-bit result slots are masked before returning", "the ExitCodeOK arm returns the slot slice as generated code left it: generated code writes only the low 4 bytes of i32/f32 results, so the upper halves hold stale parameter bits (the interpreter and api.EncodeI32 give zero-extended slots)")
 			continue
 		}
@@ -1062,11 +1064,52 @@ func checkSlotNormalisation(c *core.Ctx) {
 				}
 				n++
 				txt := core.ExprStr(call.Args[idx])
-				c.Check(normalisedBefore(cc.Body, call.Pos(), txt), "R08.9", fmt.Sprintf("%s in arm %s (`%s`) is zero-extended first", what, label, core.ExprStr(call.Fun)), call.Pos(),
+				c.Check(rule9 == "" || normalisedBefore(cc.Body, call.Pos(), txt), rule9x(rule9), fmt.Sprintf("%s in arm %s (`%s`) is zero-extended first", what, label, core.ExprStr(call.Fun)), call.Pos(),
 					"the 32-bit slots of `"+txt+"` are masked before the call", "generated code stored only the low 4 bytes of the i32/f32 values into `"+txt+"`; it is handed to Go code without masking, so the host function / listener sees stale upper halves (e.g. 0xffffffff00000005 for i32 5) where the interpreter passes zero-extended slots")
 				return true
 			})
 		}
 	}
 	c.Count("go_visible_slot_uses", n)
+	// R08.10: after the host function has written its results, the slots are not normalised by the parameter types
+	for _, cs := range sw.Body.List {
+		cc := cs.(*ast.CaseClause)
+		if len(cc.List) == 0 {
+			continue
+		}
+		label := constNameOf(info, cc.List[0])
+		var hostCall token.Pos
+		ast.Inspect(cc, func(x ast.Node) bool {
+			if call, ok := x.(*ast.CallExpr); ok {
+				if se, ok := call.Fun.(*ast.SelectorExpr); ok && se.Sel.Name == "Call" {
+					if rt := info.Types[se.X].Type; rt != nil && (strings.HasSuffix(rt.String(), "api.GoFunction") || strings.HasSuffix(rt.String(), "api.GoModuleFunction")) {
+						hostCall = call.End()
+					}
+				}
+			}
+			return true
+		})
+		if hostCall == 0 {
+			continue
+		}
+		var bad []string
+		ast.Inspect(cc, func(x ast.Node) bool {
+			if call, ok := x.(*ast.CallExpr); ok && call.Pos() > hostCall {
+				if f := core.Callee(info, call); f != nil && norm[f] && len(call.Args) == 2 && strings.Contains(core.ExprStr(call.Args[1]), "Param") {
+					bad = append(bad, core.ExprStr(call)+" at "+c.Pos(call.Pos()))
+				}
+			}
+			return true
+		})
+		c.Check(len(bad) == 0, rule10, "arm "+label+": results written by the host function are not masked by the parameter types", cc.Pos(), "no parameter-typed normalisation after the host call",
+			strings.Join(bad, "; ")+": after the host function returned, the slots hold its results; masking them by the parameter types clears the upper half of a 64-bit result that shares its slot with a 32-bit parameter")
+	}
+}
+
+
+func rule9x(r string) string {
+	if r == "" {
+		return "R12.8" // obligations are trivially discharged when only the second rule is wanted; keep them under the caller's rule
+	}
+	return r
 }
